@@ -442,6 +442,11 @@ def job_concrete(job):
         cands.append(Candidate('C16.concrete.large_equals_small_on_used_quantizer',
                                {'tag': 'concrete_history', 'model': name,
                                 'recipes': tag, 'problems': probs[:4]}))
+  # a 4-bit constant with an odd element count (packed, padded nibble)
+  from props import c05 as _c05
+  for shp in ((5, 1), (3, 1)):
+    cases.append((f'FC{list(shp)} int4 weight-only',
+                  _c05.build('FC', shp), _c05.WO(4, True, 'TENSORWISE')))
   for what, mb, recipe in cases:
     n += 1
     try:
